@@ -142,6 +142,19 @@ def entry_points():
                 dtype=float)
     eps['postpred'] = postpred
 
+    # one posterior predictive object shared by two entry points (individuals a / b)
+    shared = {}
+
+    def shared_ppm():
+        if 'ppm' not in shared:
+            ds = _posterior_dataset(['p0', 'p1', 'Sigma'])
+            shared['ppm'] = chi.PosteriorPredictiveModel(_pred(1), ds)
+        return shared['ppm']
+    eps['postpred_shared_a'] = lambda seed: shared_ppm().sample(
+        TIMES, n_samples=2, individual='a', seed=seed)['Value'].to_numpy(dtype=float)
+    eps['postpred_shared_b'] = lambda seed: shared_ppm().sample(
+        TIMES, n_samples=2, individual='b', seed=seed)['Value'].to_numpy(dtype=float)
+
     def pam(seed):
         ds1 = _posterior_dataset(['p0', 'p1', 'Sigma'])
         ds2 = _posterior_dataset(['p0', 'p1', 'Sigma'], n_draws=2)
@@ -191,7 +204,7 @@ DISTINCT_CELLS = {'init:posterior', 'init:hierarchical', 'init:filter',
                   'pop:TG', 'pop:G3same', 'pop:LN3same', 'pop:TG3same',
                   'pop:redTG2', 'pred1', 'pred2', 'pred1rep', 'pred2rep',
                   'poppred', 'poppred_rep'}
-GENERATOR_OK = {'pop:G3same', 'pop:LN3same', 'pop:TG3same', 'pop:redTG2',
+GENERATOR_OK = {'postpred_shared_a', 'postpred_shared_b', 'pop:G3same', 'pop:LN3same', 'pop:TG3same', 'pop:redTG2',
                 'pred1rep', 'pred2rep', 'poppred_rep', 'err:G', 'err:M', 'err:CM', 'err:LN', 'pop:G', 'pop:LNnc', 'pop:TG',
                 'pop:H', 'pop:comp', 'pop:cov', 'pop:compcov', 'pred1', 'pred2', 'poppred',
                 'postpred', 'pam', 'priorpred'}
@@ -214,10 +227,10 @@ def _apply_prefix(eps, prefix):
 
 def w_history(case):
     """(a): call(e, s) after a history equals the call in the initial state."""
-    eps = entry_points()
     e, s, prefix = case['entry'], case['seed'], case['prefix']
     np.random.seed(12345)          # the 'fresh' global state of this worker
-    ref = _arr(eps[e](s))
+    ref = _arr(entry_points()[e](s))     # on freshly built objects
+    eps = entry_points()
     np.random.seed(12345)
     _apply_prefix(eps, prefix)
     got = _arr(eps[e](s))
